@@ -60,9 +60,96 @@ const (
 	mAbandonClose = 4 // Split only: take k items, abandon one output, Close the others
 	mBlockedClose = 5 // source blocks after k items; consumer blocked in ReadOne; Close twice from another goroutine
 	mBlockedCancl = 6 // same, but the context is cancelled
+	mStarterClose = 7 // Split only: one consumer goroutine per output, each with its own context; output 0 takes k items (it starts the splitter) and is Closed; the others keep reading
+	mStarterCancl = 8 // same, but the context of output 0's advances is cancelled
+	mRangeCancel  = 9 // BufferedChannel / Channel only: a receiver ranges over the channel (no context of its own); the construction context is cancelled after k items
 )
 
-var modeNames = []string{"exhaust", "close", "cancel", "close-then-cancel", "abandon-one-close-others", "blocked-close", "blocked-cancel"}
+var modeNames = []string{"exhaust", "close", "cancel", "close-then-cancel", "abandon-one-close-others", "blocked-close", "blocked-cancel",
+	"starter-close-others-read", "starter-cancel-others-read", "range-then-cancel"}
+
+// GenerateParallel: Variant = 10*options + generator behaviour
+const (
+	gSucceeds  = 0 // n values, then io.EOF (in the blocked modes: then blocks, context guarded)
+	gCtxErr    = 1 // n values, then waits for its context to end and returns ctx.Err()
+	gFailing   = 2 // n values, then EVERY call fails with an ordinary error; the generator does not look at its context ("the source went down")
+	gPanicking = 3 // n values, then every call panics; the generator does not look at its context
+
+	oNone            = 0
+	oContinueOnError = 1
+	oContinueOnPanic = 2
+	oContinueOnBoth  = 3
+)
+
+var behNames = []string{"succeeds", "returns-ctx-err", "fails-ignoring-ctx", "panics-ignoring-ctx"}
+var optNames = []string{"abort", "ContinueOnError", "ContinueOnPanic", "ContinueOnError+ContinueOnPanic"}
+
+var errSourceDown = errors.New("source is down")
+
+// genCalls counts the calls of the GenerateParallel generator of the current scenario; scenarioOver is
+// the end of the scenario: from then on the generator reports io.EOF whatever its behaviour (so that a
+// worker the library failed to stop does not outlive the scenario it belongs to).
+var (
+	genCalls     atomic.Int64
+	scenarioOver atomic.Bool
+)
+
+func genProducer(c Case, block bool) fun.Producer[int64] {
+	beh := c.Variant % 10
+	var idx atomic.Int64
+	return func(ctx context.Context) (int64, error) {
+		genCalls.Add(1)
+		i := int(idx.Add(1) - 1)
+		if i < c.N {
+			return int64(i), nil
+		}
+		if scenarioOver.Load() {
+			return 0, io.EOF
+		}
+		switch beh {
+		case gCtxErr:
+			<-ctx.Done()
+			return 0, ctx.Err()
+		case gFailing:
+			time.Sleep(200 * time.Microsecond) // a failing call takes a moment (keeps the error collector small); no verdict depends on it
+			return 0, errSourceDown
+		case gPanicking:
+			time.Sleep(200 * time.Microsecond)
+			panic("source is down")
+		}
+		if block {
+			<-ctx.Done()
+			return 0, ctx.Err()
+		}
+		return 0, io.EOF
+	}
+}
+
+func genOptions(c Case) []fun.OptionProvider[*fun.WorkerGroupConf] {
+	opts := []fun.OptionProvider[*fun.WorkerGroupConf]{fun.WorkerGroupConfNumWorkers(c.Workers)}
+	switch c.Variant / 10 {
+	case oContinueOnError:
+		opts = append(opts, fun.WorkerGroupConfContinueOnError())
+	case oContinueOnPanic:
+		opts = append(opts, fun.WorkerGroupConfContinueOnPanic())
+	case oContinueOnBoth:
+		opts = append(opts, fun.WorkerGroupConfContinueOnError(), fun.WorkerGroupConfContinueOnPanic())
+	}
+	return opts
+}
+
+// genAborts: after its n values the generator fails and nothing makes the workers continue: the failure aborts the run
+func genAborts(c Case) bool {
+	b := c.Variant % 10
+	return c.Construct == cGenerate && (b == gFailing || b == gPanicking) && !genSpins(c)
+}
+
+// genSpins: after its n values the generator fails for ever and the options make the workers retry
+func genSpins(c Case) bool {
+	o, b := c.Variant/10, c.Variant%10
+	return c.Construct == cGenerate && ((b == gFailing && (o == oContinueOnError || o == oContinueOnBoth)) ||
+		(b == gPanicking && (o == oContinueOnPanic || o == oContinueOnBoth)))
+}
 
 type Case struct {
 	ID        int    `json:"id"`
@@ -74,7 +161,8 @@ type Case struct {
 	K         int    `json:"k"`
 	Mode      int    `json:"mode"`
 	ModeName  string `json:"mode_name"`
-	Variant   int    `json:"variant"` // mode 4: 0 = the abandoned output is the one advanced first (the starter), 1 = another one; maps: 0 keys, 1 pairs, 2 values
+	Variant   int    `json:"variant"` // mode 4: 0 = the abandoned output is the one advanced first (the starter), 1 = another one; maps: 0 keys, 1 pairs, 2 values; GenerateParallel: 10*options + generator behaviour
+	VarName   string `json:"variant_name,omitempty"`
 	Procs     int    `json:"gomaxprocs"`
 }
 
@@ -84,6 +172,8 @@ type Obs struct {
 	Stuck      bool     `json:"stuck"`       // an advance / Close / the worker did not return within the bound
 	CloseBlock bool     `json:"close_block"` // Close did not return within the bound
 	EOF        bool     `json:"eof"`         // exhaust: the consumer saw io.EOF after exactly n items
+	CallsAfter int      `json:"calls_after"` // GenerateParallel: generator calls made after the stop + the leak bound, within a further 20 ms
+	NotClosed  bool     `json:"not_closed"`  // BufferedChannel: the channel was not closed within the bound after the cancellation
 	Taken      int      `json:"taken"`
 	Detail     string   `json:"detail,omitempty"`
 	Stacks     []string `json:"stacks,omitempty"`
@@ -217,7 +307,7 @@ func build(c Case, cctx context.Context, block bool) reader {
 		}
 		return iterReader(fun.MergeIterators(srcs...))
 	case cGenerate:
-		return iterReader(source(seq(0, n), block).Producer().GenerateParallel(opt))
+		return iterReader(genProducer(c, block).GenerateParallel(genOptions(c)...))
 	case cChain:
 		srcs := make([]*fun.Iterator[int64], w)
 		for i := range srcs {
@@ -342,7 +432,9 @@ func runSingle(c Case, root context.Context, obs *Obs) {
 		var err error
 		ok := bounded(rootBound, func() { got, err = take(cctx, rd, c.K) })
 		obs.Taken = got
-		if !ok || got != c.K {
+		if aborted := ok && got < c.K && genAborts(c) && err != nil && root.Err() == nil; aborted {
+			// the generator's failure aborted the run (values in flight may be dropped): the iterator ended early, by design
+		} else if !ok || got != c.K {
 			obs.Stuck = true
 			obs.Detail = fmt.Sprintf("could not take %d items of %d: got %d, err=%v returned=%v", c.K, c.N, got, err, ok)
 		}
@@ -498,6 +590,105 @@ func runSplit(c Case, root context.Context, obs *Obs) {
 	}
 }
 
+// runSplitStarter: one consumer goroutine per output, each with its OWN context. Output 0 takes k >= 1
+// items first - its first advance starts the splitting goroutine, under the context of that advance.
+// Then the consumers of the other outputs read until their iterator reports an error, and output 0 is
+// closed (mode 7) or the context of its advances is cancelled (mode 8). Whatever the splitter was doing,
+// it is gone now, so every other consumer - whose own context is still live - must come back within the
+// bound. Variant 1: the source blocks (context guarded) after its n items instead of ending, so the
+// splitter can only end through the cancellation.
+func runSplitStarter(c Case, root context.Context, obs *Obs) {
+	outs := source(seq(0, c.N), c.Variant == 1).Split(c.Workers)
+	ctxs := make([]context.Context, len(outs))
+	cancels := make([]context.CancelFunc, len(outs))
+	for i := range outs {
+		ctxs[i], cancels[i] = context.WithCancel(root)
+	}
+	var got int
+	var err error
+	ok := bounded(rootBound, func() { got, err = take(ctxs[0], iterReader(outs[0]), c.K) })
+	obs.Taken = got
+	if !ok || got != c.K {
+		obs.Stuck = true
+		obs.Detail = fmt.Sprintf("output 0 could not take %d items of %d: got %d, err=%v returned=%v", c.K, c.N, got, err, ok)
+		return
+	}
+	type res struct {
+		i, n int
+		err  error
+	}
+	done := make(chan res, len(outs))
+	for i := 1; i < len(outs); i++ {
+		go func(i int) {
+			n := 0
+			for {
+				if _, e := outs[i].ReadOne(ctxs[i]); e != nil {
+					done <- res{i, n, e}
+					return
+				}
+				n++
+			}
+		}(i)
+	}
+	runtime.Gosched()
+	if c.Mode == mStarterClose {
+		obs.CloseBlock = !bounded(callBound, func() { _ = outs[0].Close(); _ = outs[0].Close() })
+	} else {
+		cancels[0]()
+	}
+	deadline := time.After(callBound)
+	for pending := len(outs) - 1; pending > 0; pending-- {
+		select {
+		case r := <-done:
+			obs.Taken += r.n
+		case <-deadline:
+			obs.Stuck = true
+			obs.Detail = fmt.Sprintf("%d consumer(s) of the other outputs (own contexts live) still parked in ReadOne %v after output 0 - which started the splitter - was %s (n=%d, k=%d)",
+				pending, callBound, map[int]string{mStarterClose: "closed", mStarterCancl: "cancelled"}[c.Mode], c.N, c.K)
+			return
+		}
+	}
+}
+
+// runRange: a receiver ranges over the channel of BufferedChannel / Channel - it has no context, only
+// the closing of the channel ends it. After it has received k items the context the channel was built
+// with is cancelled: the pump goes away, and the channel has to be closed. Variant 1: the source blocks
+// (context guarded) after its n items, k = n: the pump can only end through the cancellation.
+func runRange(c Case, root context.Context, obs *Obs) {
+	cctx, cancel := context.WithCancel(root)
+	defer cancel()
+	ch := source(seq(0, c.N), c.Variant == 1).BufferedChannel(cctx, c.Cap)
+	reached := make(chan struct{})
+	finished := make(chan int, 1)
+	go func() {
+		n := 0
+		if c.K == 0 {
+			close(reached)
+		}
+		for range ch {
+			n++
+			if n == c.K {
+				close(reached)
+			}
+		}
+		finished <- n
+	}()
+	select {
+	case <-reached:
+	case <-time.After(rootBound):
+		obs.Stuck, obs.Detail = true, "the receiver never got the first k items"
+		return
+	}
+	cancel()
+	select {
+	case n := <-finished:
+		obs.Taken = n
+	case <-time.After(callBound):
+		obs.NotClosed = true
+		obs.Detail = fmt.Sprintf("the channel was not closed %v after its context was cancelled (receiver had %d of %d items, cap=%d)", callBound, c.K, c.N, c.Cap)
+	}
+}
+
 // runProcessParallel: the construct is a blocking call; the consumer is the processing function.
 // exhaust: it returns after n items. cancel: the context is cancelled from inside the k-th call
 // (k = 0: before the call) and the call must return.
@@ -545,19 +736,34 @@ func runScenario(c Case) Obs {
 	old := runtime.GOMAXPROCS(c.Procs)
 	defer runtime.GOMAXPROCS(old)
 	var obs Obs
+	genCalls.Store(0)
+	scenarioOver.Store(false)
 	before := funGoroutines()
 	root, rootCancel := context.WithTimeout(context.Background(), rootBound)
 	switch c.Construct {
 	case cSplit:
-		runSplit(c, root, &obs)
+		if c.Mode == mStarterClose || c.Mode == mStarterCancl {
+			runSplitStarter(c, root, &obs)
+		} else {
+			runSplit(c, root, &obs)
+		}
 	case cProcessParallel:
 		runProcessParallel(c, root, &obs)
 	default:
-		runSingle(c, root, &obs)
+		if c.Mode == mRangeCancel {
+			runRange(c, root, &obs)
+		} else {
+			runSingle(c, root, &obs)
+		}
 	}
 	// the consumer has stopped: everything started on its behalf must go away
 	surv := waitNoNew(before, leakBound)
 	obs.Leak = len(surv)
+	if genSpins(c) { // is the generator still being called although the consumer is gone?
+		c0 := genCalls.Load()
+		time.Sleep(20 * time.Millisecond)
+		obs.CallsAfter = int(genCalls.Load() - c0)
+	}
 	for i, s := range surv {
 		if i < 3 {
 			obs.Stacks = append(obs.Stacks, s)
@@ -566,6 +772,10 @@ func runScenario(c Case) Obs {
 	// end of scenario: the user's root context ends; whatever was left must go now (keeps scenarios independent)
 	rootCancel()
 	obs.LeakAfter = len(waitNoNew(before, leakBound))
+	if obs.LeakAfter > 0 {
+		scenarioOver.Store(true)
+		waitNoNew(before, leakBound)
+	}
 	return obs
 }
 
@@ -585,6 +795,8 @@ func oracle(run *kit.Run, c Case, o Obs) {
 	switch {
 	case o.CloseBlock:
 		fail("close-blocks", "Close (called twice from another goroutine) did not return within "+callBound.String()+" "+o.Detail)
+	case o.NotClosed:
+		fail("not-closed", o.Detail)
 	case o.Stuck:
 		fail("consumer-stuck", o.Detail)
 	case c.Mode == mExhaust && !o.EOF:
@@ -599,11 +811,13 @@ func oracle(run *kit.Run, c Case, o Obs) {
 			knownHits++
 			fail("starter-abandoned", fmt.Sprintf("Split(%d): output 0 started the splitter and was abandoned, the others were closed after %d of %d items: the splitter is still blocked in ChanSend.Write %v later (it ends with the user's context)", c.Workers, c.K, c.N, leakBound))
 		} else {
-			fail("goroutine-leak", fmt.Sprintf("%d goroutine(s) of the library still alive %v after the consumer stopped (%s at k=%d of n=%d, workers=%d): %s",
-				o.Leak, leakBound, modeNames[c.Mode], c.K, c.N, c.Workers, firstLines(first, 14)))
+			fail("goroutine-leak", fmt.Sprintf("%d goroutine(s) of the library still alive %v after the consumer stopped (%s at k=%d of n=%d, workers=%d%s; generator calls in the next 20 ms: %d): %s",
+				o.Leak, leakBound, modeNames[c.Mode], c.K, c.N, c.Workers, c.VarName, o.CallsAfter, firstLines(first, 14)))
 		}
 	} else if o.LeakAfter > 0 {
 		fail("goroutine-leak", fmt.Sprintf("%d goroutine(s) still alive after the user's root context ended", o.LeakAfter))
+	} else if o.CallsAfter > 0 {
+		fail("goroutine-leak", fmt.Sprintf("the generator was called %d more time(s) in the 20 ms that followed the stop + %v", o.CallsAfter, leakBound))
 	}
 }
 
@@ -617,6 +831,9 @@ func firstLines(s string, n int) string {
 
 func execCase(run *kit.Run, c Case, verbose bool) {
 	c.Name, c.ModeName = names[c.Construct], modeNames[c.Mode]
+	if c.Construct == cGenerate && c.Variant != 0 {
+		c.VarName = ", generator " + behNames[c.Variant%10] + ", " + optNames[c.Variant/10]
+	}
 	o := runScenario(c)
 	if verbose {
 		fmt.Printf("%s n=%d workers=%d cap=%d k=%d mode=%s variant=%d gomaxprocs=%d\n  taken=%d eof=%v stuck=%v close_blocks=%v leak=%d leak_after_root_cancel=%d %s\n",
@@ -630,7 +847,7 @@ func execCase(run *kit.Run, c Case, verbose bool) {
 	run.Count("mode=" + c.ModeName)
 	run.Count(fmt.Sprintf("workers=%d", c.Workers))
 	term := fmt.Sprintf("C04Case %s %s %s %s %s %s %s %s %s %s %s", kit.ZI(c.ID), kit.ZI(c.Construct), kit.ZI(c.N), kit.ZI(c.Workers),
-		kit.ZI(c.Cap), kit.ZI(c.K), kit.ZI(c.Mode), kit.ZI(c.Variant), kit.ZI(o.Leak), kit.Bool(o.Stuck || o.CloseBlock), kit.Bool(o.EOF))
+		kit.ZI(c.Cap), kit.ZI(c.K), kit.ZI(c.Mode), kit.ZI(c.Variant), kit.ZI(o.Leak), kit.Bool(o.Stuck || o.CloseBlock || o.NotClosed), kit.Bool(o.EOF))
 	run.Case(c.ID, c, term, fmt.Sprintf("%d|%d|%d|%d|%d|%d|%d", c.Construct, c.N, c.Workers, c.Cap, c.K, c.Mode, c.Variant),
 		c.N >= 1 && c.Mode != mExhaust)
 }
@@ -642,11 +859,11 @@ func modesFor(k int) []int {
 	case cProcessParallel:
 		return []int{mExhaust, mCancel, mBlockedCancl}
 	case cBufferedChannel: // a bare channel has no Close
-		return []int{mExhaust, mCancel, mBlockedCancl}
+		return []int{mExhaust, mCancel, mBlockedCancl, mRangeCancel}
 	case cMergeSlices, cDtMap, cAdtMap: // no source that could block
 		return []int{mExhaust, mClose, mCancel, mCloseCancel}
 	case cSplit:
-		return []int{mExhaust, mClose, mCancel, mCloseCancel, mAbandonClose, mBlockedClose, mBlockedCancl}
+		return []int{mExhaust, mClose, mCancel, mCloseCancel, mAbandonClose, mBlockedClose, mBlockedCancl, mStarterClose, mStarterCancl}
 	default:
 		return []int{mExhaust, mClose, mCancel, mCloseCancel, mBlockedClose, mBlockedCancl}
 	}
@@ -657,7 +874,7 @@ func main() {
 	run.Header = "From FunV Require Import Base.Tac Corr.C04_corr."
 	run.Footer = "Definition M := Eval vm_compute in mismatches cases.\nPrint M."
 	run.CaseType = "case"
-	run.Rule = "every construct (Split, ProcessParallel, Map, ParallelBuffer, Buffer, MergeIterators, GenerateParallel, Chain, MergeSlices, MergeSliceIterators, BufferedChannel, dt.Map, adt.Map) x input length n x cut point k in 0..n x stop mode (exhaust, Close, cancel, Close-then-cancel, abandon-one-Split-output-close-others, consumer blocked then Close twice from another goroutine / cancel) x workers x GOMAXPROCS; distinct = distinct (construct, n, workers, cap, k, mode, variant); non-trivial = n >= 1 and the consumer stops before the end"
+	run.Rule = "every construct (Split, ProcessParallel, Map, ParallelBuffer, Buffer, MergeIterators, GenerateParallel, Chain, MergeSlices, MergeSliceIterators, BufferedChannel, dt.Map, adt.Map) x input length n x cut point k in 0..n x stop mode (exhaust, Close, cancel, Close-then-cancel, abandon-one-Split-output-close-others, consumer blocked then Close twice from another goroutine / cancel) x workers x GOMAXPROCS; Split additionally with one consumer goroutine per output, each with its own context: output 0 (the starter) takes k items and is closed / its context cancelled while the others keep reading (finite source / source that blocks after n items) - they must return within 10 s; BufferedChannel / Channel additionally with a receiver that ranges over the channel while the construction context is cancelled after k items - the channel must be closed; GenerateParallel additionally x options {abort, ContinueOnError, ContinueOnPanic, both} x generator behaviour after its n values {io.EOF, waits for ctx and returns ctx.Err(), fails for ever ignoring ctx, panics for ever ignoring ctx} with the oracle 'no goroutine left AND the generator is not called any more'; distinct = distinct (construct, n, workers, cap, k, mode, variant); non-trivial = n >= 1 and the consumer stops before the end"
 
 	if run.Replay != "" {
 		var c Case
@@ -732,6 +949,22 @@ func main() {
 									do(Case{Construct: k, N: n, Workers: w, Cap: cp, K: n, Mode: m, Variant: vr})
 								case mBlockedClose, mBlockedCancl: // the source blocks after its n items: k = n
 									do(Case{Construct: k, N: n, Workers: w, Cap: cp, K: n, Mode: m, Variant: vr})
+								case mStarterClose, mStarterCancl:
+									if w < 2 {
+										continue
+									}
+									for cut := 1; cut <= n; cut++ {
+										do(Case{Construct: k, N: n, Workers: w, K: cut, Mode: m, Variant: 0})
+									}
+									if n >= 1 { // the source blocks after its n items
+										do(Case{Construct: k, N: n, Workers: w, K: 1, Mode: m, Variant: 1})
+										do(Case{Construct: k, N: n, Workers: w, K: n, Mode: m, Variant: 1})
+									}
+								case mRangeCancel:
+									for cut := 0; cut <= n; cut++ {
+										do(Case{Construct: k, N: n, Workers: w, Cap: cp, K: cut, Mode: m, Variant: 0})
+									}
+									do(Case{Construct: k, N: n, Workers: w, Cap: cp, K: n, Mode: m, Variant: 1})
 								case mAbandonClose:
 									if w < 2 {
 										continue
@@ -749,6 +982,36 @@ func main() {
 								}
 							}
 						}
+					}
+				}
+			}
+		}
+	}
+	// GenerateParallel: options x generator behaviours (Variant = 10*options + behaviour)
+	gns, gws := []int{1, 3}, []int{1, 2, 3}
+	if run.Thorough() {
+		gns, gws = []int{0, 1, 2, 3, 6, 9}, []int{1, 2, 3, 8}
+	}
+	for round := 0; round < run.Pick(1, 4); round++ {
+		for opt := oNone; opt <= oContinueOnBoth; opt++ {
+			for beh := gSucceeds; beh <= gPanicking; beh++ {
+				vr := 10*opt + beh
+				if vr == 0 {
+					continue // the main enumeration
+				}
+				for _, w := range gws {
+					for _, n := range gns {
+						if beh == gSucceeds {
+							do(Case{Construct: cGenerate, N: n, Workers: w, K: n, Mode: mExhaust, Variant: vr})
+						}
+						for _, m := range []int{mClose, mCancel, mCloseCancel} {
+							for cut := 0; cut <= n; cut++ {
+								do(Case{Construct: cGenerate, N: n, Workers: w, K: cut, Mode: m, Variant: vr})
+							}
+						}
+						// all n values taken, the consumer is parked in ReadOne (the generator blocks / fails for ever), then Close / cancel
+						do(Case{Construct: cGenerate, N: n, Workers: w, K: n, Mode: mBlockedClose, Variant: vr})
+						do(Case{Construct: cGenerate, N: n, Workers: w, K: n, Mode: mBlockedCancl, Variant: vr})
 					}
 				}
 			}
